@@ -23,7 +23,7 @@ import os
 from .cfg import stmt_defs
 from .core import params, target_names
 
-REFERENCE = os.path.join(os.path.dirname(os.path.dirname(os.path.abspath(__file__))), 'reference')
+REFERENCE = os.environ.get('VERIF_REFERENCE') or os.path.join(os.path.dirname(os.path.dirname(os.path.abspath(__file__))), 'reference')
 
 
 def local_names(fn):
